@@ -66,7 +66,9 @@ def raw_records(path):
             })
     # the GT strings as written (pysam's `phased` flag is true only if every separator is '|')
     try:
-        with open(path, "r", errors="replace") as f:
+        import gzip as _gzip
+
+        with (_gzip.open(path, "rt", errors="replace") if str(path).endswith(".gz") else open(path, "r", errors="replace")) as f:
             k = 0
             for line in f:
                 if line.startswith("#"):
@@ -535,6 +537,8 @@ def gen_store_case(rng, prop, tier):
         render_odd(rng, w, knobs)
         if rng.random() < 0.12:
             knobs["no_contig_lines"] = w["no_contig_lines"] = True
+        if rng.random() < 0.15:
+            knobs["initial_gz"] = True
         n = rng.choice([1, 2, 3])
         ops = [{"op": "unphase"} for _ in range(n)]
         return {"machine": "store", "world": W.clean_world(w), "ops": ops, "knobs": knobs, "state0": []}
@@ -559,6 +563,8 @@ def gen_store_case(rng, prop, tier):
     state0 = render_initial(rng, w, prop, knobs)
     if prop == "C13" and rng.random() < 0.1:
         knobs["no_contig_lines"] = w["no_contig_lines"] = True
+    if rng.random() < 0.12:
+        knobs["initial_gz"] = True
     samples = w["samples"]
     chroms = [c["name"] for c in w["chroms"]]
     n_ops = rng.choice([1, 2, 2, 3, 3, 4, 5, 6])
@@ -642,6 +648,12 @@ class StoreRun:
     def setup(self):
         W.write_vcf(self.world, os.path.join(self.dir, "initial.vcf"))
         self.current = os.path.join(self.dir, "initial.vcf")
+        if self.case.get("knobs", {}).get("initial_gz"):
+            import pysam
+
+            pysam.tabix_compress(self.current, self.current + ".gz", force=True)
+            self.current = self.current + ".gz"
+            self.stats.inc("initial_file_bgzipped")
         self.snap[-1] = self.current
         self.libs = {}
         if not self.odd:
